@@ -1,6 +1,26 @@
 from mindsdb_sql.exceptions import ParsingException
 
 
+def param_to_string(value, use_json=False):
+    """
+    Renders a value of USING / SET / PARAMETERS clause as it is written in SQL
+    :param value: python value or ast node
+    :param use_json: use json notation for strings (double quotes)
+    """
+    import json
+
+    if hasattr(value, 'to_string'):
+        # ast node (for example identifier)
+        return value.to_string()
+    if value is None:
+        return 'NULL'
+    if isinstance(value, (dict, list)):
+        return json.dumps(value)
+    if use_json:
+        return json.dumps(value)
+    return repr(value)
+
+
 def indent(level):
     return '  ' * level
 
